@@ -57,6 +57,7 @@ def run(rep: Report, tier: str) -> None:
 	rule_b(rep, idx)
 	rule_c(rep, idx)
 	rule_e(rep, idx)
+	rule_f(rep, idx)
 
 
 def rule_a(rep: Report, idx: SourceIndex) -> None:
@@ -187,9 +188,64 @@ def rule_b(rep: Report, idx: SourceIndex) -> None:
 		else:
 			got = _dispatched(tok)
 		r.check(got == dunder, f'token {tok}', (m.relpath, line), f'table maps `{tok}` to {dunder} but CPython dispatches {got}: operator typing would read the wrong stub signature')
+	rule_unchecked(rep, idx, m, c, rows, arth_tokens)
 	r.check(cmp_const, 'comparison-handlers-constant', pr.where, 'a comparison handler no longer returns from_standard(bool) directly; the comparison rows of the table must then be checked too')
-	# arthmetical() must name exactly the tokens whose CPython result type depends on the operand (the resolver picks the result by parameter type only for these)
-	r.check(sorted(arth_tokens) == sorted(['+', '-', '*', '/', '%']), 'arthmetical-set', arth.where if arth else c.where, f'arthmetical() token set changed: {arth_tokens}')
+
+
+def rule_unchecked(rep: Report, idx: SourceIndex, acc_mod, ops_cls, rows: dict, arth_tokens: list) -> None:
+	"""OperationTrait.try_operation checks the operand type against the stub parameter only for arthmetical() tokens; for every other token the
+	declared result of the left operand's stub is returned for ANY right operand. That is sound only if the stub result equals what CPython computes
+	for every scalar right operand CPython accepts. Likewise on_factor returns the operand type unchanged for every unary operator."""
+	r = rep.rule('C03/unchecked-operand-results', 'for operator tokens typed without an operand check (not in arthmetical()), and for unary operators (typed as the operand), the inferred result type equals CPython\'s for every scalar operand type CPython accepts', floor=20)
+	tr = idx.mod('rogw/tranp/semantics/reflection/traits.py')
+	rep.consulted(tr.relpath)
+	top = tr.func('OperationTrait.try_operation')
+	tsrc = unparse(top.node)
+	if 'operations.arthmetical(operator.tokens)' not in tsrc or 'return method.returns(value)' not in tsrc:
+		r.undecided('try_operation-shape', top.where, 'OperationTrait.try_operation no longer has the shape `if not arthmetical(op): return method.returns(value)`; this rule must be re-derived')
+		return
+	m = idx.mod(CLASSES_PY)
+	stubs = {}
+	for c in m.classes.values():
+		n = _actual_name(c)
+		if n in ('int', 'float', 'bool'):
+			stubs[n] = c
+	for tok, (dunder, line) in rows.items():
+		if tok is None or tok in arth_tokens or dunder not in BINARY or tok in ('or', 'and', '==', '<', '>', '<=', '>=', '<>', '!=', 'in', 'not.in', 'is', 'is.not'):
+			continue
+		for sname, sc in stubs.items():
+			f = sc.method(dunder)
+			if f is None:
+				continue
+			ret = _members(f.node.returns, sname)
+			for oname in ('int', 'bool', 'float'):
+				a, b = SAMPLES[sname][0], SAMPLES[oname][1]
+				try:
+					got = type(BINARY[dunder](a, b)).__name__
+				except TypeError:
+					continue  # CPython rejects the combination: outside the domain
+				key = f'{sname} {tok} {oname}'
+				r.check(ret == [got], key, f.where, f'`{tok}` is typed without checking the right operand, so `{sname} {tok} {oname}` is inferred as {"|".join(ret)} (stub {sname}.{dunder}), but CPython yields {got} (e.g. {a!r} {tok} {b!r} == {BINARY[dunder](a, b)!r}): the C++ declaration gets the wrong type', unparse(f.node).split('\n')[0])
+	# unary operators
+	refl = idx.mod('rogw/tranp/semantics/reflections.py')
+	of = refl.cls('ProceduralResolver').method('on_factor')
+	if of is None or unparse(of.node.body[-1]) != 'return value.stack(node)':
+		r.undecided('on_factor-shape', (of or refl.cls('ProceduralResolver')).where, 'ProceduralResolver.on_factor no longer returns the operand type unchanged; this rule must be re-derived')
+		return
+	from vlib.grammar import GrammarModel, ladder
+	gm = GrammarModel()
+	unary = next((lv.tokens for lv in ladder(gm) if lv.kind == 'prefix' and lv.tag == 'factor'), None)
+	if not unary:
+		r.undecided('unary-tokens', (gm.relpath, 1), 'factor level not found in the grammar ladder')
+		return
+	fn = {'-': pyop.neg, '+': pyop.pos, '~': pyop.invert}
+	for tok in unary:
+		for sname in ('int', 'float', 'bool'):
+			try:
+				got = type(fn[tok](SAMPLES[sname][0])).__name__
+			except TypeError:
+				continue
+			r.check(got == sname, f'unary {tok}{sname}', of.where, f'on_factor types `{tok}x` as the type of x, but for x: {sname} CPython yields {got} (e.g. {tok}{SAMPLES[sname][0]!r} == {fn[tok](SAMPLES[sname][0])!r})', 'return value.stack(node)')
 
 
 def rule_c(rep: Report, idx: SourceIndex) -> None:
@@ -270,6 +326,8 @@ def rule_e(rep: Report, idx: SourceIndex) -> None:
 					return {'indexpath'}
 				if ann.startswith(('dict[str', 'list[str')) or ann in ('SymbolMap', 'TemplateMap', 'UpdateMap'):
 					return {'indexpath[]'}
+				if fn.name == '_deserialize_attrs' and p.arg == 'data_attrs':
+					return {'indexpath[]'}
 				return None
 			def ctaint(tt, e):
 				nm = attr_chain(e.func) or ''
@@ -283,7 +341,7 @@ def rule_e(rep: Report, idx: SourceIndex) -> None:
 					for tg in node.targets:
 						t._bind(tg, {'indexpath'})
 			for s in find_sites(f, t):
-				if s.kind not in ('prefix', 'suffix', 'substr', 'slicelen', 'lencmp') or not s.labels:
+				if s.kind not in ('prefix', 'suffix', 'substr', 'slicelen', 'lencmp', 'order') or not s.labels:
 					continue
 				n += 1
 				where = (rel, s.node.lineno)
@@ -292,4 +350,60 @@ def rule_e(rep: Report, idx: SourceIndex) -> None:
 				elif s.key in exempt:
 					r.ok(s.key, where, message='exempt: ' + exempt[s.key], fragment=s.text)
 				else:
-					r.violate(s.key, where, f'{s.kind} test `{s.text}` on an index path is not anchored on ".": `parameters.1` is a string prefix of `parameters.10`, so a signature with more than ten entries at one level matches the wrong path', s.text)
+					r.violate(s.key, where, (f'`{s.text}` orders index paths by string comparison: "10" sorts before "2", so sibling attributes are permuted once a level has more than ten entries' if s.kind == 'order' else '') or f'{s.kind} test `{s.text}` on an index path is not anchored on ".": `parameters.1` is a string prefix of `parameters.10`, so a signature with more than ten entries at one level matches the wrong path', s.text)
+
+
+# ---- (f) constants matched against entry paths must allow for indexed elements ------------------------------------------------------
+
+def rule_f(rep: Report, idx: SourceIndex) -> None:
+	"""scope visibility (finder.py) and node matchers inspect entry paths textually. A path element is written `tag[i]` whenever the tag repeats among
+	its siblings, so a constant that spells a complete element `tag.` of a repeatable tag only matches the un-indexed form (e.g. a class with one method)."""
+	from vlib.grammar import GrammarModel
+	r = rep.rule('C03/path-constants-index-aware', 'a constant matched against an entry path (not de_identify()-ed) does not spell a complete element of a tag that can repeat among siblings (it would be written tag[i] and never match)', floor=3)
+	gm = GrammarModel()
+	rep.consulted(gm.relpath)
+	repeatable: set[str] = set()
+	for tag, prods in gm.productions().items():
+		for p in prods:
+			seen: dict[str, int] = {}
+			for s_ in p:
+				for t in s_.tags:
+					seen[t] = seen.get(t, 0) + (2 if s_.mult == 'many' else 1)
+			repeatable |= {t for t, k in seen.items() if k > 1}
+	files = ['rogw/tranp/semantics/finder.py', 'rogw/tranp/semantics/reflections.py'] + idx.glob('rogw/tranp/syntax/node/definition/*.py') + ['rogw/tranp/syntax/node/query.py', 'rogw/tranp/syntax/node/node.py'] + idx.glob('rogw/tranp/semantics/processors/*.py')
+
+	def consts_of(e: ast.AST) -> list[str]:
+		if isinstance(e, ast.Constant) and isinstance(e.value, str):
+			return [e.value]
+		if isinstance(e, ast.Tuple):
+			return [c for x in e.elts for c in consts_of(x)]
+		if isinstance(e, ast.JoinedStr):
+			return [v.value for v in e.values if isinstance(v, ast.Constant) and isinstance(v.value, str)]
+		return []
+
+	for rel in files:
+		m = idx.mod(rel)
+		for q, f in m.functions.items():
+			if '#' in q:
+				continue
+			t = Taint(f, lambda e: {'tagpath'} if e.attr in ('full_path',) or (e.attr == 'origin' and 'path' in unparse(e.value).lower() and 'de_identify' not in unparse(e.value)) else None, lambda fn, p: None)
+			for node in walk_no_nested(f.node):
+				pats: list[str] = []
+				recv = None
+				kind = None
+				if isinstance(node, ast.Call) and isinstance(node.func, ast.Attribute) and node.func.attr in ('startswith', 'endswith', 'replace', 'find', 'count', 'split') and node.args:
+					recv, kind = node.func.value, node.func.attr
+					pats = consts_of(node.args[0])
+				elif isinstance(node, ast.Compare) and len(node.ops) == 1 and isinstance(node.ops[0], (ast.In, ast.NotIn)):
+					recv, kind = node.comparators[0], 'in'
+					pats = consts_of(node.left)
+				if recv is None or not pats or 'tagpath' not in t.of(recv) or 'de_identify' in unparse(recv):
+					continue
+				rep.consulted(rel)
+				for pat in pats:
+					elems = pat.split('.')
+					# complete elements: all but the last (the last may continue with `[i]`), and for endswith also the last
+					complete = [e for e in elems[:-1] if e] + ([elems[-1]] if kind == 'endswith' and elems[-1] else [])
+					bad = [e for e in complete if e in repeatable]
+					key = f'{rel}:{q}:{unparse(node)[:60]}:{pat}'
+					r.check(not bad, key, (rel, node.lineno), f'`{unparse(node)[:90]}` matches the entry path against {pat!r}; the element(s) {bad} can repeat among siblings and are then written `{bad[0] if bad else ""}[i]`, so the constant only matches when there is exactly one (e.g. a class with a single method): the decision silently flips for larger inputs', unparse(node)[:120])
